@@ -275,7 +275,14 @@ fn generate(seed: u64, run: u64, thorough: bool) -> APlan {
     for _ in 0..nops {
         let sizes: &[u32] = if thorough { &sizes_t } else { &sizes_q };
         match rng.below(12) {
-            0..=2 => ops.push(Op::Msm { g: rng.below(2) as u8, n: *rng.pick(sizes), it: rng.below(5) as u8 }),
+            0..=2 => {
+                let mut n = *rng.pick(sizes);
+                if rng.chance(1, if thorough { 150 } else { 600 }) {
+                    // more terms than any fixed-size block an implementation might work in
+                    n = if rng.chance(2, 3) { 4100 } else { 8200 };
+                }
+                ops.push(Op::Msm { g: rng.below(2) as u8, n, it: rng.below(5) as u8 })
+            }
             3 | 4 => {
                 let n = *rng.pick(sizes);
                 let zero_at = if n > 0 && !cfg!(debug_assertions) && rng.chance(1, 5) { Some(rng.below(n as u64) as u32) } else { None };
